@@ -47,6 +47,8 @@ def cases(ctx):
             yield {'G': G}
     for i in range(30 if not thorough else 300):
         yield {'G': gen.unit_chain_cfg(rng)}
+    for i in range(40 if not thorough else 400):      # caseless terminals: digits and brackets (upper() of the name is the name)
+        yield {'G': gen.random_cfg(rng, Sigma=rng.choice([['0', '1'], ['(', ')'], ['0', 'a']]), maxlen=3)}
     for i in range(30 if not thorough else 300):      # right-hand sides of length 5-7 (the splitting phase chains several fresh variables)
         G = gen.random_cfg(rng, nvars=rng.randint(1, 2), maxlen=2)
         n = rng.randint(5, 7)
@@ -128,7 +130,8 @@ def post(name, spec_in, spec_out):
     if name in ('cfg_binarise', 'cfg_isolate', 'cfg_add_start'):
         if len(spec_out['V']) != len(set(spec_out['V'])) or (set(spec_in['V']) - set(spec_out['V'])):
             bad.append('variable set damaged')
-        if any(v in spec_in['Sigma'] for v in newV):
+        # (a caseless terminal such as '0' or ')' legitimately gets the variable of the same NAME, t.upper() == t; symbols are typed)
+        if any(v in spec_in['Sigma'] and v.upper() != v for v in newV):
             bad.append('fresh variable clashes with a terminal')
     for lhs, _, rhs in R:
         if lhs not in spec_out['V'] or any(k == 'v' and n not in spec_out['V'] for k, n in rhs):
@@ -209,6 +212,19 @@ def judge(ctx, c, answers):
         if not mo or (len(mo['R']), len(set(mo['V']))) != (len(out['R']), len(set(out['V']))):
             ctx.violation('correspondence:cfg_to_chomsky', {'case': c, 'impl': out, 'model': answers[n] if len(answers) > n else None}, no_input=not problems)
         res.append(sorted(lang))
+        # the converted grammar as INPUT of the conversion and of the unit-rule phase (its terminal variables may carry the name of
+        # their terminal: '0' -> variable '0'): language and normal form must survive
+        if not problems and not out.get('non_string_symbol'):
+            for nm, f in (('cfg_to_chomsky(twice)', CA.cfg_to_chomsky), ('cfg_eliminate_unit_rules(on converted)', CA.cfg_eliminate_unit_rules)):
+                g2 = call(f, C, limit=30)
+                if 'ok' not in g2:
+                    ctx.violation('to-chomsky-on-converted-raises', {'case': c, 'op': nm, 'impl': g2})
+                    continue
+                o2 = enc.cfg_to_spec(g2['ok'])
+                l2 = {w for w in words if oracles.cfg_accepts(rules_of(o2), o2['S'], w)}
+                if l2 != ref:
+                    ctx.violation('to-chomsky-on-converted', {'case': c, 'op': nm, 'word': sorted(l2 ^ ref, key=len)[0], 'impl': o2})
+            ctx.count('converted-again')
     if enc.cfg_to_spec(G) != before:
         ctx.violation('argument-mutated', {'case': c, 'phase': 'cfg_to_chomsky'})
     # helper functions
